@@ -8,6 +8,15 @@ use renet::ServerEvent;
 pub struct ApiState {
     /// per client id: first disconnect reason seen on the server-side connection object (None = healthy when last seen)
     pub sv_first_reason: HashMap<u64, Option<DisconnectReason>>,
+    /// reference model of the server's event queue: one entry per actual insertion / removal, in order
+    pub expected: std::collections::VecDeque<ExpEvent>,
+}
+
+#[derive(Clone, Debug)]
+pub struct ExpEvent {
+    pub connected: bool,
+    pub id: u64,
+    pub reason: Option<DisconnectReason>,
 }
 
 impl WorldA {
@@ -442,7 +451,34 @@ impl WorldA {
     }
 
     pub fn pump_events(&mut self, obs: &mut Obs) {
+        let lazy = self.cfg.get("evlazy") == 1;
         while let Some(ev) = self.server.get_event() {
+            // the event stream is exactly the sequence of insertions and removals that happened, whenever it is polled
+            obs.count("oracle.C12.event_queue_model");
+            let (got_conn, got_id, got_reason) = match &ev {
+                ServerEvent::ClientConnected { client_id } => (true, *client_id, None),
+                ServerEvent::ClientDisconnected { client_id, reason } => (false, *client_id, Some(*reason)),
+            };
+            match self.api.expected.pop_front() {
+                None => obs.violate("C12", "event-without-transition", if got_conn { "connect" } else { "disconnect" }, format!("client {}", got_id)),
+                Some(exp) => {
+                    if exp.connected != got_conn || exp.id != got_id {
+                        obs.violate(
+                            "C12",
+                            "event-stream-differs-from-transitions",
+                            if got_conn { "connect" } else { "disconnect" },
+                            format!("got {} of client {}, owed {} of client {}", if got_conn { "connect" } else { "disconnect" }, got_id, if exp.connected { "connect" } else { "disconnect" }, exp.id),
+                        );
+                    } else if !got_conn && lazy && got_reason != exp.reason {
+                        obs.violate(
+                            "C12",
+                            "event-reason-is-not-first-reason",
+                            &format!("{}-instead-of-{}", reason_name(&got_reason.unwrap()), reason_name(&exp.reason.unwrap_or(DisconnectReason::Transport))),
+                            format!("client {}", got_id),
+                        );
+                    }
+                }
+            }
             match &ev {
                 ServerEvent::ClientConnected { client_id } => {
                     obs.count("oracle.C12.event_alternation");
@@ -451,7 +487,6 @@ impl WorldA {
                         obs.violate("C12", "two-connects-without-disconnect", "events", format!("client {}", client_id));
                     }
                     *st = true;
-                    self.api.sv_first_reason.insert(*client_id, None);
                 }
                 ServerEvent::ClientDisconnected { client_id, reason } => {
                     obs.count("oracle.C12.event_alternation");
@@ -460,6 +495,11 @@ impl WorldA {
                         obs.violate("C12", "disconnect-without-connect", "events", format!("client {}", client_id));
                     }
                     *st = false;
+                    if lazy {
+                        // judged against the reason captured at removal time (above): the map below describes the current incarnation
+                        self.events.push(ev);
+                        continue;
+                    }
                     obs.count("oracle.C12.event_reason");
                     let first = self.api.sv_first_reason.get(client_id).cloned().flatten();
                     let expect = first.unwrap_or(DisconnectReason::Transport);
@@ -476,6 +516,19 @@ impl WorldA {
                 }
             }
             self.events.push(ev);
+        }
+        if let Some(exp) = self.api.expected.front() {
+            obs.violate("C12", "transition-without-event", if exp.connected { "connect" } else { "disconnect" }, format!("client {}", exp.id));
+            self.api.expected.clear();
+        }
+    }
+
+    /// Reference event queue: a removal that is about to happen on a present connection is owed one disconnect event
+    /// carrying the first reason that connection showed (Transport / `default` when it was healthy).
+    fn expect_removal(&mut self, id: u64, default: DisconnectReason) {
+        if let Some(sc) = self.server.verif_connection(id) {
+            let first = self.api.sv_first_reason.get(&id).cloned().flatten().or(sc.disconnect_reason());
+            self.api.expected.push_back(ExpEvent { connected: false, id, reason: Some(first.unwrap_or(default)) });
         }
     }
 
@@ -508,6 +561,7 @@ impl WorldA {
                 }
             }
             1 => {
+                self.expect_removal(id, DisconnectReason::Transport);
                 self.server.remove_connection(id);
                 self.conns[i].present = false;
             }
@@ -554,6 +608,9 @@ impl WorldA {
                 if self.conns[i].local {
                     if let Some(mut c) = self.conns[i].client.take() {
                         self.track_sv_reasons();
+                        if !c.is_disconnected() {
+                            self.expect_removal(id, DisconnectReason::DisconnectedByClient);
+                        }
                         self.server.disconnect_local_client(id, &mut c);
                         self.conns[i].client = Some(c);
                         if !self.ep_exists(i, SV) {
@@ -970,7 +1027,9 @@ impl WorldA {
             _ => {}
         }
         self.track_sv_reasons();
-        self.pump_events(obs);
+        if self.cfg.get("evlazy") != 1 || op.k == K_TICK {
+            self.pump_events(obs);
+        }
         self.check_finality(obs);
     }
 
